@@ -554,6 +554,9 @@ def run_chain(max_len):
                             except BaseException:
                                 counters["py_chain_out_of_data"] += 1   # judged by the C10 sweep
                                 continue
+                            if len(syms) != nsym:
+                                fail(f"Python front end | ChainCoder, {fname} | returns fewer symbols than asked for instead of reporting that the data ran out", f"words {[hex(int(x)) for x in w]} (seal={sealed}), {mname}: asked for {nsym}, got {list(syms)}")
+                                continue
                             def encode_back(coder):
                                 if fname == "decode(family, parameter arrays)":
                                     coder.encode_reverse(syms, family, *params(nsym))
